@@ -956,6 +956,14 @@ fn main() {
                     std::thread::sleep(std::time::Duration::from_millis(10));
                 }
             }
+            "tpersist" => {
+                // persist through the database handle the scenario opened (transactional wrappers included)
+                match w.db.as_ref().expect("db") {
+                    Db::Plain(d) => res(&d.persist(persist_mode(a[0]))),
+                    Db::Opt(d) => res(&d.persist(persist_mode(a[0]))),
+                    Db::Single(d) => res(&d.persist(persist_mode(a[0]))),
+                }
+            }
             "trace_on" => {
                 fjall::verif::trace_enable(true);
                 "ok".into()
